@@ -92,6 +92,10 @@ func checkEncoding(x *Ctx, sc *chainScen, reqs []*ChainReq) {
 		if res.W.Status() != tw.W.Status() {
 			x.Violate("status-differs", "%s: status %d, without encoding %d", what, res.W.Status(), tw.W.Status())
 		}
+		if cl := res.W.H.Get("Content-Length"); cl != "" && cl != fmt.Sprint(len(res.W.Body)) {
+			x.Violate("undecodable", "%s: the response declares Content-Length %s but %d body bytes were sent: the client does not get the complete body", what, cl, len(res.W.Body))
+			continue
+		}
 		ce := res.W.H["Content-Encoding"]
 		if r.AddCE {
 			// the route function added its own value (a layered coding it applied itself): judged is what is left
